@@ -71,15 +71,25 @@ def tie_forward(ctx):
             k += 1
             square = (g["kH"], g["sH"], g["pH"], g["dH"]) == (g["kW"], g["sW"], g["pW"], g["dW"])
             P = cc.make_payload(rng, op, g, bias=(k % 2 == 0), form="int" if (square or k % 3 == 0) else "tuple",
-                                data="distinct" if k % 2 else "ints", layout=cc.LAYOUTS[(k // 5) % 8])
+                                data=("distinct" if k % 2 else "ints") if not (op.startswith("max") and (k // 5) % 3 == 0) else cc.TIE_KINDS[(k // 15) % 5],
+                                layout=cc.LAYOUTS[(k // 5) % 8], dtypes=cc.DTYPES[(k // 40) % 4], zero_bias=(k % 35 == 1))
             obs = _observe(P)
             bag.add(P, cc.term_forward(P, obs), (op,) + cc.descr2(g), cc.nontrivial2(g), cc.oracle_forward(P, obs))
     for g in g1:
         for op in OPS1:
             k += 1
-            P = cc.make_payload(rng, op, g, bias=(k % 2 == 0), data="distinct" if k % 2 else "ints", layout=cc.LAYOUTS[(k // 3) % 8])
+            P = cc.make_payload(rng, op, g, bias=(k % 2 == 0), data="distinct" if k % 2 else "ints", layout=cc.LAYOUTS[(k // 3) % 8],
+                                dtypes=cc.DTYPES[(k // 24) % 4], zero_bias=(k % 21 == 1))
             obs = _observe(P)
             bag.add(P, cc.term_forward(P, obs), (op, g["k"], g["s"], g["p"], g["d"], g["W"]), cc.nontrivial1(g), cc.oracle_forward(P, obs))
+    # state kept between calls: geometries seen much earlier in this process are visited again, now with the other dtype
+    n_first = len(bag.payloads)
+    for i in range(0, n_first, 23 if ctx.quick else 11):
+        P = dict(bag.payloads[i])
+        P["dtype"] = "f32" if P.get("dtype", "f64") == "f64" else "f64"
+        P.pop("pre_dtype", None)
+        obs = _observe(P)
+        bag.add(P, cc.term_forward(P, obs), ("revisit", i), True, cc.oracle_forward(P, obs))
     ctx.sample({"forward_case": bag.payloads[7], "implementation_output": cc.tolist(_observe(bag.payloads[7])[1])})
     ctx.extra["forward_geometries"] = {"2d": len(g2), "1d": len(g1)}
     _finish_tie(ctx, bag, "convpool/forward values+shapes", "fwd", lambda P: "nn.functional." + P["op"], lambda P: "forward-value",
@@ -522,6 +532,22 @@ def tie_misc(ctx):
                         verdicts.append((len(payloads) - 1, {"expected": {"running_mean": trm.numpy().tolist(), "running_var": trv.numpy().tolist()},
                                                               "observed": {"running_mean": np.array(res[1]).tolist(), "running_var": np.array(res[2]).tolist()},
                                                               "note": "running statistics after one training step differ from torch"}))
+    # batch statistics in float32 on data whose mean is large relative to its spread (x = 4096 + small dyadic offsets, batch a power of two):
+    # mean, deviations and their squares are exact in float32, so x.mean / x.var must give the exact biased variance; torch float32 as oracle
+    for i in range(6 if ctx.quick else 30):
+        Nb, Cb = rng.choice((4, 8)), rng.randint(1, 3)
+        base = rng.choice((4096.0, 2048.0, -4096.0))
+        xbn = (base + dyadic(rng, (Nb, Cb), 2, -3, 3)).astype(np.float32)
+        res = impl.cpu_ops.batch_norm_forward(xbn.copy(), None, None, None, None, True, 0.25, 1e-5)
+        mean, var = np.array(res[3], dtype=np.float64), np.array(res[4], dtype=np.float64)
+        chans = [xbn[:, c].astype(np.float64) for c in range(Cb)]
+        t = " && ".join("qpair_eqb (bn_stats true None %s) (%s, %s)" % (qlist(chans[c]), qlit(mean[c]), qlit(var[c])) for c in range(Cb))
+        tout = torch.nn.functional.batch_norm(torch.tensor(xbn), None, None, None, None, True, 0.25, 1e-5).numpy()
+        out = np.array(res[0], dtype=np.float64)
+        terms.append(t); payloads.append({"op": "batch_norm", "dtype": "float32", "training": True, "x": xbn.tolist()})
+        if not cc.close(out, tout.astype(np.float64), 1e-3):
+            verdicts.append((len(payloads) - 1, {"expected": cc.tolist(tout), "observed": cc.tolist(out),
+                                                  "note": "float32 batch statistics on data with |mean| >> spread differ from torch (tolerance 1e-3)"}))
     # BatchNorm layers over a history that interleaves training and eval forwards (validation passes between training steps):
     # num_batches_tracked and the running statistics after every forward, for a float momentum and momentum=None (cumulative average);
     # exact (Coq) for the counter and for the running mean while the factor is dyadic, torch.nn for outputs and all statistics
